@@ -127,8 +127,6 @@ def _run(case):
             if not isinstance(val, Exception):
                 raise val
             return escaped(val, f"{kind}.{what}", f"round {ri} of case={case}", cls)
-        if nested_moved:
-            return FAIL(f"nested-drive-call-moved-clock|{kind}.{what}", f"[action, clock before, after]={nested_moved[:3]} round {ri} case={case}", classes=cls)
         for a in counts:
             c, w = counts[a], want[a]
             if c > w:
@@ -139,6 +137,8 @@ def _run(case):
                     f"action {a} (due {due[a]}, target {target}) ran {c}x, expected {w}x after {what}() returned; round {ri} case={case}",
                     classes=cls,
                 )
+    if nested_moved:
+        return FAIL(f"nested-drive-call-moved-clock|{kind}.{what}", f"[action, clock before, after]={nested_moved[:3]} case={case}", classes=cls)
     return OK(nontrivial, cls)
 
 
